@@ -694,6 +694,51 @@ func execute(c caseSpec, o *oracle) (viol []violation, err error) {
 				o.inc("nt:re-store-while-old-sleeper-pending")
 			}
 			probe(i)
+		case "readgate":
+			// a request finds its entry, and while it is about to test the entry's freshness (its clock reading)
+			// the entry's time-to-live ends and the clean-up runs; then the request goes on
+			parked, release := r.clk.ArmGate(inCacheRead)
+			type rres struct {
+				e   *early
+				bad string
+			}
+			done := make(chan rres, 1)
+			go func() { e, bad := r.request(p.Key); done <- rres{e, bad} }()
+			var got rres
+			select {
+			case <-parked:
+				o.inc("readgate:reader-held-at-its-freshness-test")
+				o.nt = true
+				later := baseNs + p.At + ttlNs(float64(c.Cfg.TTL)) + 1
+				r.clk.Set(later)
+				r.g0++
+				for _, t := range r.clk.Pending() {
+					if t.due <= later {
+						r.clk.Fire(t)
+						if err = r.settle(); err != nil {
+							r.g0--
+							release()
+							return
+						}
+						im.sleeperFired(t.tag)
+					}
+				}
+				r.g0--
+				release()
+				got = <-done
+				now = later
+			case got = <-done:
+				r.clk.DisarmGate()
+				o.inc("readgate:nothing-to-read")
+			}
+			if got.bad != "" {
+				viol = append(viol, violation{Step: i, Msg: got.bad})
+				break
+			}
+			if msg, _ := o.judgeRequest(p.Key, now, got.e, false); msg != "" {
+				viol = append(viol, violation{Step: i, Msg: msg})
+			}
+			probe(i)
 		case "pair":
 			// writer A is held between the size check and the insert, writer B runs
 			// completely, then A continues.
@@ -879,7 +924,7 @@ var (
 func genIntent(plugin string, big bool) *rapid.Generator[intent] {
 	kinds := []string{"req", "resp", "adv", "req", "resp", "adv"}
 	if plugin == "caching" && !big {
-		kinds = append(kinds, "pair")
+		kinds = append(kinds, "pair", "readgate")
 	} else {
 		kinds = append(kinds, "burst")
 	}
@@ -976,6 +1021,9 @@ func genCase(t *rapid.T, plugin string, maxOps int) caseSpec {
 			c.Ops = append(c.Ops, op{Kind: "req", At: now, Key: k})
 		case "resp":
 			c.Ops = append(c.Ops, op{Kind: "resp", At: now, Key: k, Resp: mkResp(in, cacheSizes[in.Size])})
+		case "readgate":
+			c.Ops = append(c.Ops, op{Kind: "readgate", At: now, Key: k})
+			now += ttlNs(float64(c.Cfg.TTL)) + 1 // if the reader is held, the clock has moved past the time-to-live
 		case "pair":
 			k2 := keys[in.Key2%len(keys)]
 			c.Ops = append(c.Ops, op{Kind: "pair", At: now, Items: []item{
